@@ -1,2 +1,807 @@
-(* Proofs for C18. *)
-From WI Require Import Lib.Base Lib.Info Model.Jwt.
+(* Proofs for C18 (JWT recognition and registered fields).  No axioms; standard library only. *)
+From WI Require Import Lib.Base Lib.Info Lib.Time Model.Base64 Model.Jwt.
+From WI Require Proofs.Base64.
+From WI Require gen.JwtParams.
+From Coq Require Import List NArith ZArith Lia Bool Permutation.
+From Coq Require Import ZifyN ZifyNat ZifyBool.
+Import ListNotations.
+Open Scope N_scope.
+
+(* ------------------------------------------------------------------ *)
+(* bytes.Split on "."                                                  *)
+(* ------------------------------------------------------------------ *)
+Definition no_dot (l : bytes) : bool := forallb (fun c => negb (c =? dot)) l.
+
+Lemma split_dot_shape : forall s, exists a r, split_dot s = a :: r.
+Proof.
+  induction s as [|c s IH]; cbn [split_dot]; [eauto|].
+  destruct IH as (a & r & ->). destruct (c =? dot); eauto.
+Qed.
+
+Lemma split_dot_app : forall h r, no_dot h = true -> split_dot (h ++ dot :: r) = h :: split_dot r.
+Proof.
+  induction h as [|c h IH]; intros r H; cbn [app split_dot].
+  - destruct (split_dot_shape r) as (a & r' & ->). rewrite N.eqb_refl. reflexivity.
+  - cbn [no_dot forallb] in H. apply andb_true_iff in H as [Hc Hh].
+    fold (no_dot h) in Hh. rewrite (IH r Hh). apply negb_true_iff in Hc. rewrite Hc. reflexivity.
+Qed.
+
+Lemma split_dot_nodot : forall h, no_dot h = true -> split_dot h = [h].
+Proof.
+  induction h as [|c h IH]; intros H; cbn [split_dot]; [reflexivity|].
+  cbn [no_dot forallb] in H. apply andb_true_iff in H as [Hc Hh]. fold (no_dot h) in Hh.
+  rewrite (IH Hh). apply negb_true_iff in Hc. rewrite Hc. reflexivity.
+Qed.
+
+Lemma split_dot_join : forall s,
+  join [dot] (split_dot s) = s /\ forallb no_dot (split_dot s) = true.
+Proof.
+  induction s as [|c s [IHj IHf]]; cbn [split_dot]; [split; reflexivity|].
+  destruct (split_dot s) as [|cur rest] eqn:E.
+  - destruct (split_dot_shape s) as (a & r & E'). congruence.
+  - destruct (c =? dot) eqn:Ec.
+    + apply N.eqb_eq in Ec. subst c. split.
+      * change (join [dot] ([] :: cur :: rest)) with ([] ++ [dot] ++ join [dot] (cur :: rest)).
+        rewrite IHj. reflexivity.
+      * change (forallb no_dot ([] :: cur :: rest)) with (no_dot [] && forallb no_dot (cur :: rest)).
+        rewrite IHf. reflexivity.
+    + cbn [forallb] in IHf. apply andb_true_iff in IHf as [Hcur Hrest]. split.
+      * destruct rest as [|x rest'].
+        -- cbn [join] in *. congruence.
+        -- change (join [dot] ((c :: cur) :: x :: rest')) with ((c :: cur) ++ [dot] ++ join [dot] (x :: rest')).
+           change (join [dot] (cur :: x :: rest')) with (cur ++ [dot] ++ join [dot] (x :: rest')) in IHj.
+           cbn [app] in *. congruence.
+      * cbn [forallb no_dot]. rewrite Ec. cbn [negb andb]. fold (no_dot cur). rewrite Hcur, Hrest. reflexivity.
+Qed.
+
+Lemma split_dot_three : forall s h p g,
+  split_dot s = [h; p; g] <->
+  s = h ++ dot :: p ++ dot :: g /\ no_dot h = true /\ no_dot p = true /\ no_dot g = true.
+Proof.
+  intros s h p g. split.
+  - intros E. destruct (split_dot_join s) as [Hj Hf]. rewrite E in Hj, Hf.
+    cbn [forallb] in Hf. rewrite !andb_true_iff in Hf. destruct Hf as (Hh & Hp & Hg & _).
+    repeat split; try assumption. rewrite <- Hj. cbn [join app]. reflexivity.
+  - intros (-> & Hh & Hp & Hg).
+    rewrite (split_dot_app h _ Hh), (split_dot_app p _ Hp), (split_dot_nodot g Hg). reflexivity.
+Qed.
+
+(* ------------------------------------------------------------------ *)
+(* ParseJWT / IsJWT                                                    *)
+(* ------------------------------------------------------------------ *)
+Lemma parse_jwt_ok_iff : forall J s j,
+  parse_jwt J s = Ok j <->
+  exists h p g hb pb,
+    split_dot s = [h; p; g] /\
+    decode_any h = Ok hb /\ J hb = JRObject (j_header j) /\
+    decode_any p = Ok pb /\ J pb = JRObject (j_payload j) /\
+    decode_any g = Ok (j_sig j).
+Proof.
+  intros J s j. unfold parse_jwt, parse_jwt_gen. split.
+  - destruct (split_dot s) as [|h [|p [|g [|x r]]]] eqn:E; try discriminate.
+    destruct (decode_any h) as [hb| |] eqn:Eh; cbn [bind]; try discriminate.
+    destruct (J hb) as [hm| |] eqn:Jh; cbn [unmarshal_map bind]; try discriminate.
+    destruct (decode_any p) as [pb| |] eqn:Ep; cbn [bind]; try discriminate.
+    destruct (J pb) as [pm| |] eqn:Jp; cbn [unmarshal_map bind]; try discriminate.
+    destruct (decode_any g) as [gb| |] eqn:Eg; cbn [bind]; try discriminate.
+    intros H. injection H as <-. exists h, p, g, hb, pb. cbn [j_header j_payload j_sig]. auto 10.
+  - intros (h & p & g & hb & pb & E & Eh & Jh & Ep & Jp & Eg).
+    rewrite E, Eh. cbn [bind]. rewrite Jh. cbn [unmarshal_map bind]. rewrite Ep. cbn [bind].
+    rewrite Jp. cbn [unmarshal_map bind]. rewrite Eg. cbn [bind]. destruct j; reflexivity.
+Qed.
+
+Theorem recognised_iff : forall J s,
+  is_jwt J s = true <->
+  exists h p g,
+    s = h ++ dot :: p ++ dot :: g /\ no_dot h = true /\ no_dot p = true /\ no_dot g = true /\
+    (exists hb, decode_any h = Ok hb /\ is_object (J hb) = true) /\
+    (exists pb, decode_any p = Ok pb /\ is_object (J pb) = true) /\
+    (exists gb, decode_any g = Ok gb).
+Proof.
+  intros J s. unfold is_jwt. split.
+  - destruct (parse_jwt J s) as [j| |] eqn:P; try discriminate. intros _.
+    apply parse_jwt_ok_iff in P as (h & p & g & hb & pb & E & Eh & Jh & Ep & Jp & Eg).
+    apply split_dot_three in E as (-> & Hh & Hp & Hg).
+    exists h, p, g. repeat split; try assumption.
+    + exists hb. rewrite Jh. auto.
+    + exists pb. rewrite Jp. auto.
+    + eauto.
+  - intros (h & p & g & -> & Hh & Hp & Hg & (hb & Eh & Oh) & (pb & Ep & Op) & (gb & Eg)).
+    destruct (J hb) as [hm| |] eqn:Jh; try discriminate.
+    destruct (J pb) as [pm| |] eqn:Jp; try discriminate.
+    assert (P : parse_jwt J (h ++ dot :: p ++ dot :: g) = Ok (mkjwt hm pm gb)).
+    { apply parse_jwt_ok_iff. exists h, p, g, hb, pb. cbn [j_header j_payload j_sig].
+      repeat split; try assumption. apply split_dot_three. auto. }
+    rewrite P. reflexivity.
+Qed.
+
+(* the three segments are unique: the decomposition of the statement is the one ParseJWT uses *)
+Lemma segments_unique : forall h p g h' p' g',
+  no_dot h = true -> no_dot p = true -> no_dot g = true ->
+  no_dot h' = true -> no_dot p' = true -> no_dot g' = true ->
+  h ++ dot :: p ++ dot :: g = h' ++ dot :: p' ++ dot :: g' -> h = h' /\ p = p' /\ g = g'.
+Proof.
+  intros h p g h' p' g' A B C A' B' C' E.
+  assert (S1 : split_dot (h ++ dot :: p ++ dot :: g) = [h; p; g]) by (apply split_dot_three; auto).
+  assert (S2 : split_dot (h' ++ dot :: p' ++ dot :: g') = [h'; p'; g']) by (apply split_dot_three; auto).
+  rewrite E in S1. rewrite S1 in S2. injection S2 as -> -> ->. auto.
+Qed.
+
+Theorem parse_never_panics : forall strict J s site, parse_jwt_gen strict J s <> Panic site.
+Proof.
+  intros strict J s site. unfold parse_jwt_gen.
+  destruct (split_dot s) as [|h [|p [|g [|x r]]]]; try discriminate.
+  pose proof (Proofs.Base64.decode_any_never_panics h) as Nh.
+  pose proof (Proofs.Base64.decode_any_never_panics p) as Np.
+  pose proof (Proofs.Base64.decode_any_never_panics g) as Ng.
+  destruct (decode_any h) as [hb|e|e]; cbn [bind]; try discriminate; [|exfalso; eapply Nh; reflexivity].
+  destruct (J hb) as [hm| |]; cbn [unmarshal_map bind]; try discriminate;
+    [|destruct strict; cbn [bind]; try discriminate].
+  - destruct (decode_any p) as [pb|e|e]; cbn [bind]; try discriminate; [|exfalso; eapply Np; reflexivity].
+    destruct (J pb) as [pm| |]; cbn [unmarshal_map bind]; try discriminate;
+      [|destruct strict; cbn [bind]; try discriminate];
+      (destruct (decode_any g) as [gb|e|e]; cbn [bind]; try discriminate; exfalso; eapply Ng; reflexivity).
+  - destruct (decode_any p) as [pb|e|e]; cbn [bind]; try discriminate; [|exfalso; eapply Np; reflexivity].
+    destruct (J pb) as [pm| |]; cbn [unmarshal_map bind]; try discriminate;
+      (destruct (decode_any g) as [gb|e|e]; cbn [bind]; try discriminate; exfalso; eapply Ng; reflexivity).
+Qed.
+
+Theorem jwt_data_never_panics : forall J s site, jwt_data J s <> Panic site.
+Proof.
+  intros J s site. unfold jwt_data.
+  pose proof (parse_never_panics true J s) as N. fold parse_jwt in N.
+  destruct (parse_jwt J s) as [j|e|e]; cbn [bind]; try discriminate.
+  exfalso. eapply N. reflexivity.
+Qed.
+
+(* ------------------------------------------------------------------ *)
+(* Small reflection lemmas                                             *)
+(* ------------------------------------------------------------------ *)
+Lemma bytes_eqb_eq : forall a b, bytes_eqb a b = true <-> a = b.
+Proof.
+  induction a as [|x a IH]; destruct b as [|y b]; cbn [bytes_eqb]; split; intros H;
+    try reflexivity; try discriminate.
+  - apply andb_true_iff in H as [H1 H2]. apply N.eqb_eq in H1. apply IH in H2. congruence.
+  - injection H as -> ->. rewrite N.eqb_refl. cbn [andb]. apply IH. reflexivity.
+Qed.
+
+Lemma bytes_eqb_refl : forall a, bytes_eqb a a = true.
+Proof. intros a. apply bytes_eqb_eq. reflexivity. Qed.
+
+Lemma bytes_eqb_neq : forall a b, bytes_eqb a b = false <-> a <> b.
+Proof.
+  intros a b. split.
+  - intros H E. apply bytes_eqb_eq in E. congruence.
+  - intros H. destruct (bytes_eqb a b) eqn:E; [|reflexivity]. apply bytes_eqb_eq in E. contradiction.
+Qed.
+
+Fixpoint nodupb (l : list bytes) : bool :=
+  match l with
+  | [] => true
+  | x :: r => negb (existsb (bytes_eqb x) r) && nodupb r
+  end.
+
+Lemma existsb_bytes_in : forall x l, existsb (bytes_eqb x) l = true <-> In x l.
+Proof.
+  intros x l. rewrite existsb_exists. split.
+  - intros (y & Hy & E). apply bytes_eqb_eq in E. subst. exact Hy.
+  - intros H. exists x. split; [exact H | apply bytes_eqb_refl].
+Qed.
+
+Lemma nodupb_NoDup : forall l, nodupb l = true -> NoDup l.
+Proof.
+  induction l as [|x r IH]; intros H; [constructor|].
+  cbn [nodupb] in H. apply andb_true_iff in H as [H1 H2]. constructor.
+  - intros Hin. apply existsb_bytes_in in Hin. rewrite Hin in H1. discriminate.
+  - apply IH. exact H2.
+Qed.
+
+(* ------------------------------------------------------------------ *)
+(* The converters, specified as a relation                             *)
+(* ------------------------------------------------------------------ *)
+(* [shows c v t]: a registered field with converter c and JSON value v is listed with text t *)
+Inductive shows : conv -> jvalue -> bytes -> Prop :=
+| sh_str : forall s, shows CStr (JStr s) s
+| sh_alg_known : forall s e, alg_expansion s = Some e ->
+    shows CAlg (JStr s) (e ++ bs " (" ++ s ++ bs ")")
+| sh_alg_other : forall s, alg_expansion s = None -> shows CAlg (JStr s) s
+| sh_num : forall m e, in_calendar (float_floor m e) = true ->
+    shows CTime (JNum m e) (fmt_unix_utc (float_floor m e))
+| sh_digits : forall s i, parse_int64 s = Some i -> in_calendar i = true ->
+    shows CTime (JStr s) (fmt_unix_utc i)
+| sh_text_far : forall s i, parse_int64 s = Some i -> in_calendar i = false ->
+    shows CTime (JStr s) s
+| sh_text : forall s, parse_int64 s = None -> shows CTime (JStr s) s.
+
+(* [hidden c v]: the field is not listed *)
+Definition hidden (c : conv) (v : jvalue) : Prop :=
+  match v with
+  | JStr _ => c = CUnknown
+  | JNum m e => c <> CTime \/ in_calendar (float_floor m e) = false
+  | _ => True
+  end.
+
+Lemma convert_shows : forall c v t, convert c v = Some t <-> shows c v t.
+Proof.
+  intros c v t. split.
+  - destruct c, v; cbn [convert]; try discriminate.
+    + intros H. injection H as <-. constructor.
+    + unfold sig_alg. destruct (alg_expansion s) as [e|] eqn:E; intros H; injection H as <-.
+      * apply sh_alg_known. exact E.
+      * apply sh_alg_other. exact E.
+    + destruct (parse_int64 s) as [i|] eqn:P.
+      * unfold numeric_date. destruct (in_calendar i) eqn:C; intros H; injection H as <-.
+        -- eapply sh_digits; eauto.
+        -- eapply sh_text_far; eauto.
+      * intros H. injection H as <-. apply sh_text. exact P.
+    + unfold numeric_date. destruct (in_calendar (float_floor m e)) eqn:C; [|discriminate].
+      intros H. injection H as <-. apply sh_num. exact C.
+  - intros H. destruct H; cbn [convert].
+    + reflexivity.
+    + unfold sig_alg. rewrite H. reflexivity.
+    + unfold sig_alg. rewrite H. reflexivity.
+    + unfold numeric_date. rewrite H. reflexivity.
+    + rewrite H. unfold numeric_date. rewrite H0. reflexivity.
+    + rewrite H. unfold numeric_date. rewrite H0. reflexivity.
+    + rewrite H. reflexivity.
+Qed.
+
+Lemma convert_hidden : forall c v, convert c v = None <-> hidden c v.
+Proof.
+  intros c v. unfold hidden. destruct c, v; cbn [convert]; split; intros H;
+    try reflexivity; try discriminate; try exact I; try (left; discriminate);
+    try (destruct H as [H|H]; [contradiction H; reflexivity|]).
+  - destruct (parse_int64 s); [destruct (numeric_date z)|]; discriminate.
+  - unfold numeric_date in H. destruct (in_calendar (float_floor m e)); [discriminate|]. right. reflexivity.
+  - unfold numeric_date. rewrite H. reflexivity.
+Qed.
+
+Lemma shows_functional : forall c v t t', shows c v t -> shows c v t' -> t = t'.
+Proof. intros c v t t' H H'. apply convert_shows in H, H'. congruence. Qed.
+
+Lemma shows_not_hidden : forall c v t, shows c v t -> ~ hidden c v.
+Proof. intros c v t H H'. apply convert_shows in H. apply convert_hidden in H'. congruence. Qed.
+
+(* a string value is always shown unless the table names an unknown converter *)
+Lemma string_shown : forall c s, c <> CUnknown -> exists t, shows c (JStr s) t.
+Proof.
+  intros c s H. destruct (convert c (JStr s)) as [t|] eqn:E.
+  - exists t. apply convert_shows. exact E.
+  - apply convert_hidden in E. cbn in E. contradiction.
+Qed.
+
+(* the twelve algorithms of RFC 7518 3.1, and nothing else, are expanded *)
+Definition algs12 : list bytes :=
+  [bs "HS256"; bs "HS384"; bs "HS512"; bs "RS256"; bs "RS384"; bs "RS512";
+   bs "ES256"; bs "ES384"; bs "ES512"; bs "PS256"; bs "PS384"; bs "PS512"].
+
+Lemma alg_expanded_iff : forall s, (exists e, alg_expansion s = Some e) <-> In s algs12.
+Proof.
+  intros s. split.
+  - intros [e H]. unfold alg_expansion in H.
+    repeat match type of H with
+    | (if bytes_eqb s ?k then _ else _) = _ =>
+        let E := fresh "E" in destruct (bytes_eqb s k) eqn:E;
+        [apply bytes_eqb_eq in E; subst s; cbn; tauto|]
+    end. discriminate.
+  - intros H. cbn [algs12 In] in H.
+    repeat (destruct H as [<-|H]; [eexists; vm_compute; reflexivity|]). contradiction.
+Qed.
+
+Lemma alg_texts :
+  map sig_alg (algs12 ++ [bs "none"; bs ""; bs "hs256"]) =
+  [bs "HMAC using SHA-256 (HS256)"; bs "HMAC using SHA-384 (HS384)"; bs "HMAC using SHA-512 (HS512)";
+   bs "RSA PKCS1 v1.5 with SHA-256 (RS256)"; bs "RSA PKCS1 v1.5 with SHA-384 (RS384)";
+   bs "RSA PKCS1 v1.5 with SHA-512 (RS512)";
+   bs "ECDSA using P-256 (secp256r1, prime256v1) and SHA-256 (ES256)";
+   bs "ECDSA using P-384 (secp384r1) and SHA-384 (ES384)";
+   bs "ECDSA using P-521 (secp521r1) and SHA-512 (ES512)";
+   bs "RSA PSS using SHA-256 and MGF1 with SHA-256 (PS256)";
+   bs "RSA PSS using SHA-384 and MGF1 with SHA-384 (PS384)";
+   bs "RSA PSS using SHA-512 and MGF1 with SHA-512 (PS512)";
+   bs "none"; bs ""; bs "hs256"].
+Proof. vm_compute. reflexivity. Qed.
+
+(* ------------------------------------------------------------------ *)
+(* The attribute listing, for an arbitrary table                       *)
+(* ------------------------------------------------------------------ *)
+(* [listing t m l]: l lists, in the order of table t, every row whose key is present in map m
+   with a shown value; rows that are absent or hidden contribute nothing *)
+Inductive listing : list param -> jmap -> list (bytes * bytes) -> Prop :=
+| l_nil : forall m, listing [] m []
+| l_shown : forall p t m v s r,
+    jlookup (p_key p) m = Some v -> shows (p_conv p) v s -> listing t m r ->
+    listing (p :: t) m ((p_label p, s) :: r)
+| l_absent : forall p t m r,
+    jlookup (p_key p) m = None -> listing t m r -> listing (p :: t) m r
+| l_hidden : forall p t m v r,
+    jlookup (p_key p) m = Some v -> hidden (p_conv p) v -> listing t m r -> listing (p :: t) m r.
+
+Lemma attrs_in_cons : forall p t m,
+  attrs_in (p :: t) m =
+  match jlookup (p_key p) m with
+  | Some v => match convert (p_conv p) v with Some s => [(p_label p, s)] | None => [] end
+  | None => []
+  end ++ attrs_in t m.
+Proof. reflexivity. Qed.
+
+Lemma attrs_listing : forall t m, listing t m (attrs_in t m).
+Proof.
+  induction t as [|p t IH]; intros m; [constructor|].
+  rewrite attrs_in_cons. destruct (jlookup (p_key p) m) as [v|] eqn:L.
+  - destruct (convert (p_conv p) v) as [s|] eqn:C.
+    + cbn [app]. eapply l_shown; eauto. apply convert_shows. exact C.
+    + cbn [app]. eapply l_hidden; eauto. apply convert_hidden. exact C.
+  - cbn [app]. apply l_absent; auto.
+Qed.
+
+Lemma listing_functional : forall t m l l', listing t m l -> listing t m l' -> l = l'.
+Proof.
+  intros t m l l' H. revert l'. induction H; intros l' H'; inversion H'; subst; try congruence.
+  - f_equal; [|auto]. f_equal. eapply shows_functional; eauto. congruence.
+  - exfalso. eapply shows_not_hidden; eauto. congruence.
+  - auto.
+  - exfalso. eapply shows_not_hidden; eauto. congruence.
+  - auto.
+Qed.
+
+Lemma listing_iff : forall t m l, listing t m l <-> l = attrs_in t m.
+Proof.
+  intros t m l. split.
+  - intros H. eapply listing_functional; eauto. apply attrs_listing.
+  - intros ->. apply attrs_listing.
+Qed.
+
+(* present and shown -> listed *)
+Lemma shown_listed : forall t m p v s,
+  In p t -> jlookup (p_key p) m = Some v -> shows (p_conv p) v s ->
+  In (p_label p, s) (attrs_in t m).
+Proof.
+  intros t m p v s Hin L S. unfold attrs_in. apply in_flat_map. exists p. split; [exact Hin|].
+  rewrite L. apply convert_shows in S. rewrite S. left. reflexivity.
+Qed.
+
+(* listed -> comes from a row of the table whose key is present with that shown value *)
+Lemma listed_from : forall t m l s,
+  In (l, s) (attrs_in t m) ->
+  exists p v, In p t /\ p_label p = l /\ jlookup (p_key p) m = Some v /\ shows (p_conv p) v s.
+Proof.
+  intros t m l s H. unfold attrs_in in H. apply in_flat_map in H as (p & Hin & H).
+  destruct (jlookup (p_key p) m) as [v|] eqn:L; [|contradiction].
+  destruct (convert (p_conv p) v) as [s'|] eqn:C; [|contradiction].
+  destruct H as [H|[]]. injection H as <- <-. exists p, v. repeat split; auto.
+  apply convert_shows. exact C.
+Qed.
+
+Lemma label_row_unique : forall t p p',
+  NoDup (map p_label t) -> In p t -> In p' t -> p_label p = p_label p' -> p = p'.
+Proof.
+  induction t as [|q t IH]; intros p p' N Hp Hp' E; [contradiction|].
+  cbn [map] in N. inversion N as [|? ? Hnot N']; subst.
+  destruct Hp as [<-|Hp], Hp' as [<-|Hp']; auto.
+  - exfalso. apply Hnot. rewrite E. apply in_map. exact Hp'.
+  - exfalso. apply Hnot. rewrite <- E. apply in_map. exact Hp.
+Qed.
+
+(* absent -> its label does not appear *)
+Lemma absent_not_listed : forall t m p,
+  NoDup (map p_label t) -> In p t -> jlookup (p_key p) m = None ->
+  ~ In (p_label p) (map fst (attrs_in t m)).
+Proof.
+  intros t m p N Hin L H. apply in_map_iff in H as ([l s] & E & H). cbn [fst] in E. subst l.
+  apply listed_from in H as (p' & v & Hin' & El & L' & _).
+  assert (p' = p) by (eapply label_row_unique; eauto). subst p'. congruence.
+Qed.
+
+(* present but not a shown value (null, boolean, array, object, misplaced number) -> not listed *)
+Lemma hidden_not_listed : forall t m p v,
+  NoDup (map p_label t) -> In p t -> jlookup (p_key p) m = Some v -> hidden (p_conv p) v ->
+  ~ In (p_label p) (map fst (attrs_in t m)).
+Proof.
+  intros t m p v N Hin L Hd H. apply in_map_iff in H as ([l s] & E & H). cbn [fst] in E. subst l.
+  apply listed_from in H as (p' & v' & Hin' & El & L' & S).
+  assert (p' = p) by (eapply label_row_unique; eauto). subst p'.
+  rewrite L in L'. injection L' as <-. eapply shows_not_hidden; eauto.
+Qed.
+
+(* the order of the listing is the order of the table: the labels form a subsequence *)
+Inductive subseq {A} : list A -> list A -> Prop :=
+| ss_nil : forall l, subseq [] l
+| ss_take : forall x a b, subseq a b -> subseq (x :: a) (x :: b)
+| ss_skip : forall x a b, subseq a b -> subseq a (x :: b).
+
+Lemma listing_order : forall t m, subseq (map fst (attrs_in t m)) (map p_label t).
+Proof.
+  induction t as [|p t IH]; intros m; [constructor|].
+  rewrite attrs_in_cons. destruct (jlookup (p_key p) m) as [v|]; [destruct (convert (p_conv p) v)|];
+    cbn [app map fst]; [apply ss_take|apply ss_skip|apply ss_skip]; apply IH.
+Qed.
+
+Lemma subseq_in : forall A (a b : list A) x, subseq a b -> In x a -> In x b.
+Proof. intros A a b x H. induction H; intros Hin; cbn in *; intuition. Qed.
+
+Lemma subseq_nodup : forall A (a b : list A), subseq a b -> NoDup b -> NoDup a.
+Proof.
+  intros A a b H. induction H; intros N.
+  - constructor.
+  - inversion N; subst. constructor; [|auto]. intros Hin. eapply subseq_in in Hin; eauto.
+  - inversion N; subst. auto.
+Qed.
+
+(* each registered field is listed at most once *)
+Lemma listing_labels_nodup : forall t m, NoDup (map p_label t) -> NoDup (map fst (attrs_in t m)).
+Proof. intros t m N. eapply subseq_nodup; [apply listing_order | exact N]. Qed.
+
+(* ------------------------------------------------------------------ *)
+(* T1: the table of the running code                                   *)
+(* ------------------------------------------------------------------ *)
+(* the 16 registered names the report covers and the kind of their values
+   (RFC 7515 4.1.1-4.1.9; RFC 7519 4.1.1-4.1.7); no order implied *)
+Definition registered_names : list (bytes * conv) := [
+  (bs "alg", CAlg); (bs "jku", CStr); (bs "jwk", CStr); (bs "kid", CStr); (bs "x5u", CStr);
+  (bs "x5c", CStr); (bs "x5t", CStr); (bs "x5t#S256", CStr); (bs "typ", CStr);
+  (bs "iss", CStr); (bs "sub", CStr); (bs "aud", CStr); (bs "exp", CTime); (bs "nbf", CTime);
+  (bs "iat", CTime); (bs "jti", CStr)
+].
+
+Definition conv_eqb (a b : conv) : bool :=
+  match a, b with CStr, CStr | CAlg, CAlg | CTime, CTime | CUnknown, CUnknown => true | _, _ => false end.
+
+Lemma conv_eqb_eq : forall a b, conv_eqb a b = true -> a = b.
+Proof. destruct a, b; cbn; congruence. Qed.
+
+Definition params_ok (t : list param) : bool :=
+  nodupb (map p_key t) && nodupb (map p_label t) &&
+  negb (existsb (bytes_eqb sig_label) (map p_label t)) &&
+  forallb (fun p => existsb (fun kc => bytes_eqb (fst kc) (p_key p) && conv_eqb (snd kc) (p_conv p))
+                            registered_names) t &&
+  forallb (fun kc => existsb (fun p => bytes_eqb (fst kc) (p_key p)) t) registered_names.
+
+(* a table that fails the check proposes its own witness: a header holding the offending key *)
+Definition params_counterexample (t : list param) : option bytes :=
+  match filter (fun kc => negb (existsb (fun p => bytes_eqb (fst kc) (p_key p)) t)) registered_names with
+  | (k, _) :: _ => Some k
+  | [] =>
+      match filter (fun p => negb (existsb (fun kc => bytes_eqb (fst kc) (p_key p) && conv_eqb (snd kc) (p_conv p))
+                                           registered_names)) t with
+      | p :: _ => Some (p_key p)
+      | [] => None
+      end
+  end.
+
+Lemma params_ok_now : params_ok jwt_params = true.
+Proof. vm_compute. reflexivity. Qed.
+
+Section table.
+  Variable t : list param.
+  Hypothesis OK : params_ok t = true.
+
+  Lemma ok_parts :
+    NoDup (map p_key t) /\ NoDup (map p_label t) /\ ~ In sig_label (map p_label t) /\
+    (forall p, In p t -> In (p_key p, p_conv p) registered_names) /\
+    (forall k c, In (k, c) registered_names -> exists p, In p t /\ p_key p = k).
+  Proof.
+    unfold params_ok in OK. rewrite !andb_true_iff in OK.
+    destruct OK as ((((A & B) & C) & D) & E). repeat split.
+    - apply nodupb_NoDup. exact A.
+    - apply nodupb_NoDup. exact B.
+    - intros H. apply existsb_bytes_in in H. rewrite H in C. discriminate.
+    - intros p Hp. rewrite forallb_forall in D. specialize (D p Hp).
+      apply existsb_exists in D as ([k c] & Hin & H). cbn [fst snd] in H.
+      apply andb_true_iff in H as [H1 H2]. apply bytes_eqb_eq in H1. apply conv_eqb_eq in H2.
+      subst. exact Hin.
+    - intros k c Hin. rewrite forallb_forall in E. specialize (E (k, c) Hin).
+      apply existsb_exists in E as (p & Hp & H). cbn [fst] in H. apply bytes_eqb_eq in H.
+      exists p. auto.
+  Qed.
+
+  Lemma registered_conv_unique : forall k c c',
+    In (k, c) registered_names -> In (k, c') registered_names -> c = c'.
+  Proof.
+    intros k c c' H H'. cbn [registered_names In] in H, H'.
+    repeat (destruct H as [H|H]; [injection H as <- <-|]); try contradiction;
+    repeat (destruct H' as [H'|H']; [try (injection H' as <-; reflexivity); try (apply (f_equal fst) in H'; cbn [fst] in H'; apply bytes_eqb_eq in H'; vm_compute in H'; discriminate)|]);
+    contradiction.
+  Qed.
+
+  (* every registered name has exactly one row, with the converter of its kind *)
+  Lemma registered_row : forall k c, In (k, c) registered_names ->
+    exists l, In (mkparam k l c) t.
+  Proof.
+    intros k c Hin. destruct ok_parts as (_ & _ & _ & D & E).
+    destruct (E k c Hin) as (p & Hp & Ek). specialize (D p Hp). rewrite Ek in D.
+    assert (p_conv p = c) by (eapply registered_conv_unique; eauto).
+    exists (p_label p). destruct p as [k' l' c']. cbn in *. subst. exact Hp.
+  Qed.
+
+  Lemma no_unknown_conv : forall p, In p t -> p_conv p <> CUnknown.
+  Proof.
+    intros p Hp. destruct ok_parts as (_ & _ & _ & D & _). specialize (D p Hp).
+    intros E. rewrite E in D. cbn [registered_names In] in D.
+    repeat (destruct D as [D|D]; [discriminate|]). contradiction.
+  Qed.
+End table.
+
+(* ------------------------------------------------------------------ *)
+(* The signature attribute                                             *)
+(* ------------------------------------------------------------------ *)
+Local Ltac Zify.zify_post_hook ::= Z.div_mod_to_equations.
+
+Lemma b64val_lt64 : forall u c v, b64val u c = Some v -> v < 64.
+Proof.
+  intros u c v. unfold b64val.
+  destruct ((65 <=? c) && (c <=? 90)) eqn:A; [intros H; injection H as <-; lia|].
+  destruct ((97 <=? c) && (c <=? 122)) eqn:B; [intros H; injection H as <-; lia|].
+  destruct ((48 <=? c) && (c <=? 57)) eqn:C; [intros H; injection H as <-; lia|].
+  destruct u; destruct (c =? 45), (c =? 95), (c =? 43), (c =? 47); intros H;
+    try discriminate; injection H as <-; lia.
+Qed.
+
+Lemma q3_ok : forall x y z w, x < 64 -> y < 64 -> z < 64 -> w < 64 -> bytes_ok (q3 x y z w) = true.
+Proof.
+  intros x y z w Hx Hy Hz Hw. unfold q3, bytes_ok, byte_ok. cbn [forallb].
+  rewrite !andb_true_iff. repeat split; apply N.ltb_lt.
+  - apply N.div_lt_upper_bound; lia.
+  - apply N.mod_lt. lia.
+  - apply N.mod_lt. lia.
+Qed.
+
+Lemma bytes_ok_take : forall n l, bytes_ok l = true -> bytes_ok (take n l) = true.
+Proof.
+  induction n as [|n IH]; intros [|x l] H; cbn [take]; try reflexivity.
+  unfold bytes_ok in *. cbn [forallb] in *. apply andb_true_iff in H as [H1 H2].
+  rewrite H1. cbn [andb]. apply IH. exact H2.
+Qed.
+
+Lemma bytes_ok_app : forall a b, bytes_ok a = true -> bytes_ok b = true -> bytes_ok (a ++ b) = true.
+Proof. intros a b Ha Hb. unfold bytes_ok in *. rewrite forallb_app, Ha, Hb. reflexivity. Qed.
+
+Lemma core_bytes_ok : forall f u p t out, core f u p t = Some out -> bytes_ok out = true.
+Proof.
+  induction f as [|f IH]; intros u p t out H; [discriminate|].
+  destruct t as [|a [|b [|c [|d r]]]]; cbn [core] in H.
+  - injection H as <-. reflexivity.
+  - discriminate.
+  - destruct p; [discriminate|].
+    destruct (b64val u a) eqn:Ea; [|discriminate].
+    destruct (b64val u b) eqn:Eb; [|discriminate].
+    injection H as <-. apply b64val_lt64 in Ea, Eb. unfold q1. apply bytes_ok_take. apply q3_ok; lia.
+  - destruct p; [discriminate|].
+    destruct (b64val u a) eqn:Ea; [|discriminate].
+    destruct (b64val u b) eqn:Eb; [|discriminate].
+    destruct (b64val u c) eqn:Ec; [|discriminate].
+    injection H as <-. apply b64val_lt64 in Ea, Eb, Ec. unfold q2. apply bytes_ok_take. apply q3_ok; lia.
+  - destruct (b64val u a) eqn:Ea; [|discriminate].
+    destruct (b64val u b) eqn:Eb; [|discriminate].
+    apply b64val_lt64 in Ea, Eb.
+    destruct (b64val u c) eqn:Ec.
+    + apply b64val_lt64 in Ec. destruct (b64val u d) eqn:Ed.
+      * apply b64val_lt64 in Ed. destruct (core f u p r) eqn:ER; [|discriminate].
+        injection H as <-. change (bytes_ok (q3 n n0 n1 n2 ++ b0) = true).
+        apply bytes_ok_app; [apply q3_ok; lia | eapply IH; eauto].
+      * destruct (p && (d =? 61)); [|discriminate]. destruct r; [|discriminate].
+        injection H as <-. unfold q2. apply bytes_ok_take. apply q3_ok; lia.
+    + destruct (p && (c =? 61) && (d =? 61)); [|discriminate]. destruct r; [|discriminate].
+      injection H as <-. unfold q1. apply bytes_ok_take. apply q3_ok; lia.
+Qed.
+
+(* what DecodeAnyBase64 returns are bytes *)
+Lemma decode_any_bytes_ok : forall s out, decode_any s = Ok out -> bytes_ok out = true.
+Proof.
+  intros s out H. apply Proofs.Base64.decode_any_sound in H as [e H].
+  unfold std_decode in H. eapply core_bytes_ok. exact H.
+Qed.
+
+(* the URL-safe alphabet of RFC 4648 section 5: letters, digits, '-' and '_' (no '+', '/', '=') *)
+Definition url_char (c : N) : bool := is_alnum c || (c =? 45) || (c =? 95).
+
+Lemma okc_url_char : forall c, Proofs.Base64.okc true false c = true -> url_char c = true.
+Proof.
+  intros c. unfold Proofs.Base64.okc, url_char, is_alnum, b64val. cbn [andb orb].
+  destruct ((65 <=? c) && (c <=? 90)) eqn:A; [intros _; rewrite !orb_true_r; reflexivity|].
+  destruct ((97 <=? c) && (c <=? 122)) eqn:B; [intros _; rewrite !orb_true_r; reflexivity|].
+  destruct ((48 <=? c) && (c <=? 57)) eqn:C; [intros _; reflexivity|].
+  destruct (c =? 45); [intros _; reflexivity|].
+  destruct (c =? 95); [intros _; reflexivity|]. cbn. discriminate.
+Qed.
+
+Lemma encode_url_decodes : forall raw, bytes_ok raw = true ->
+  std_decode RawURL (encode RawURL raw) = Some raw /\ forallb url_char (encode RawURL raw) = true.
+Proof.
+  intros raw H.
+  destruct (Proofs.Base64.encode_core_props true false (S (length raw)) raw (Nat.lt_succ_diag_r _) H)
+    as [Hnl Hcore].
+  assert (D : std_decode RawURL (encode RawURL raw) = Some raw).
+  { unfold std_decode, encode. cbv zeta. cbn [enc_url enc_padded].
+    rewrite (Proofs.Base64.strip_id _ Hnl). apply Hcore. apply Nat.lt_succ_diag_r. }
+  split; [exact D|].
+  unfold std_decode in D. cbv zeta in D. cbn [enc_url enc_padded] in D.
+  unfold encode in *. cbn [enc_url enc_padded] in *.
+  rewrite (Proofs.Base64.strip_id _ Hnl) in D.
+  apply Proofs.Base64.core_facts in D as (F & _ & _).
+  rewrite forallb_forall in *. intros c Hc. apply okc_url_char. apply F. exact Hc.
+Qed.
+
+Lemma describe_attrs : forall t j,
+  i_attrs (describe_in t j) =
+  attrs_in t (j_header j) ++ attrs_in t (j_payload j) ++ [(sig_label, encode RawURL (j_sig j))].
+Proof. reflexivity. Qed.
+
+Lemma describe_last : forall t j d,
+  last (i_attrs (describe_in t j)) d = (sig_label, encode RawURL (j_sig j)).
+Proof. intros t j d. rewrite describe_attrs, app_assoc. apply last_last. Qed.
+
+Theorem signature_shown : forall J s j,
+  parse_jwt J s = Ok j ->
+  exists h p g,
+    s = h ++ dot :: p ++ dot :: g /\ no_dot g = true /\ decode_any g = Ok (j_sig j) /\
+    last (i_attrs (describe_jwt j)) ([], []) = (sig_label, encode RawURL (j_sig j)) /\
+    decode_any (encode RawURL (j_sig j)) = Ok (j_sig j) /\
+    std_decode RawURL (encode RawURL (j_sig j)) = Some (j_sig j) /\
+    forallb url_char (encode RawURL (j_sig j)) = true.
+Proof.
+  intros J s j P. apply parse_jwt_ok_iff in P as (h & p & g & hb & pb & E & _ & _ & _ & _ & Eg).
+  apply split_dot_three in E as (-> & _ & _ & Hg).
+  exists h, p, g. pose proof (decode_any_bytes_ok _ _ Eg) as B.
+  destruct (encode_url_decodes _ B) as [D U].
+  repeat split; auto.
+  - apply describe_last.
+  - eapply Proofs.Base64.decode_any_complete. exact D.
+Qed.
+
+(* different signatures are shown differently *)
+Lemma signature_text_injective : forall a b, bytes_ok a = true -> bytes_ok b = true ->
+  encode RawURL a = encode RawURL b -> a = b.
+Proof.
+  intros a b Ha Hb E. destruct (encode_url_decodes a Ha) as [Da _].
+  destruct (encode_url_decodes b Hb) as [Db _]. rewrite E in Da. congruence.
+Qed.
+
+(* ------------------------------------------------------------------ *)
+(* The whole description                                               *)
+(* ------------------------------------------------------------------ *)
+Theorem jwt_data_ok_iff : forall J s i,
+  jwt_data J s = Ok i <-> exists j, parse_jwt J s = Ok j /\ i = describe_jwt j.
+Proof.
+  intros J s i. unfold jwt_data. split.
+  - destruct (parse_jwt J s) as [j| |]; cbn [bind]; try discriminate.
+    intros H. injection H as <-. eauto.
+  - intros (j & -> & ->). reflexivity.
+Qed.
+
+Theorem described_iff_recognised : forall J s, is_ok (jwt_data J s) = is_jwt J s.
+Proof. intros J s. unfold jwt_data, is_jwt. destruct (parse_jwt J s); reflexivity. Qed.
+
+(* ------------------------------------------------------------------ *)
+(* The code before the repairs                                         *)
+(* ------------------------------------------------------------------ *)
+Definition J_null (b : bytes) : jres := if bytes_eqb b (bs "null") then JRNull else JRError.
+
+(* F22: null.null. was accepted although neither segment is a JSON object *)
+Lemma F22_witness :
+  let s := bs "bnVsbA.bnVsbA." in
+  is_ok (parse_jwt_gen false J_null s) = true /\ is_jwt J_null s = false /\
+  (forall b, is_object (J_null b) = false).
+Proof.
+  repeat split; try (vm_compute; reflexivity).
+  intros b. unfold J_null. destruct (bytes_eqb b (bs "null")); reflexivity.
+Qed.
+
+(* F21: {"exp":1700000000} listed nothing; after the repair it lists the UTC time *)
+Lemma F21_witness :
+  let m := [(bs "exp", JNum 1700000000 0)] in
+  attrs_orig jwt_params [bs "exp"] m = [] /\
+  attrs_of m = [(bs "Expiration", bs "2023-11-14 22:13:20")].
+Proof. split; vm_compute; reflexivity. Qed.
+
+(* the empty string was treated as "absent" *)
+Lemma empty_string_witness :
+  let m := [(bs "sub", JStr [])] in
+  attrs_orig jwt_params [bs "sub"] m = [] /\ attrs_of m = [(bs "Subject", [])].
+Proof. split; vm_compute; reflexivity. Qed.
+
+(* F13: two iterations over the same map may list the same fields in different orders *)
+Lemma F13_witness :
+  let m := [(bs "iss", JStr (bs "a")); (bs "sub", JStr (bs "b"))] in
+  let o1 := [bs "iss"; bs "sub"] in
+  let o2 := [bs "sub"; bs "iss"] in
+  Permutation o1 o2 /\ attrs_orig jwt_params o1 m <> attrs_orig jwt_params o2 m.
+Proof.
+  split; [apply perm_swap|]. vm_compute. discriminate.
+Qed.
+
+(* ------------------------------------------------------------------ *)
+(* Instance: the table of the running code                             *)
+(* ------------------------------------------------------------------ *)
+Lemma string_field_listed : forall k m s,
+  In (k, CStr) registered_names -> jlookup k m = Some (JStr s) ->
+  exists l, In (mkparam k l CStr) jwt_params /\ In (l, s) (attrs_of m).
+Proof.
+  intros k m s R L. destruct (registered_row jwt_params params_ok_now k CStr R) as [l Hl].
+  exists l. split; [exact Hl|].
+  apply (shown_listed jwt_params m (mkparam k l CStr) (JStr s) s Hl L). constructor.
+Qed.
+
+Lemma alg_field_listed : forall k m s,
+  In (k, CAlg) registered_names -> jlookup k m = Some (JStr s) ->
+  exists l, In (mkparam k l CAlg) jwt_params /\
+    ((exists e, In s algs12 /\ alg_expansion s = Some e /\
+                In (l, e ++ bs " (" ++ s ++ bs ")") (attrs_of m))
+     \/ (~ In s algs12 /\ In (l, s) (attrs_of m))).
+Proof.
+  intros k m s R L. destruct (registered_row jwt_params params_ok_now k CAlg R) as [l Hl].
+  exists l. split; [exact Hl|].
+  destruct (alg_expansion s) as [e|] eqn:E.
+  - left. exists e. split; [apply alg_expanded_iff; eauto|]. split; [reflexivity|].
+    apply (shown_listed jwt_params m (mkparam k l CAlg) (JStr s) _ Hl L). apply sh_alg_known. exact E.
+  - right. split.
+    + intros Hin. apply alg_expanded_iff in Hin as [e' He']. congruence.
+    + apply (shown_listed jwt_params m (mkparam k l CAlg) (JStr s) _ Hl L). apply sh_alg_other. exact E.
+Qed.
+
+Lemma numeric_date_listed : forall k m mant e,
+  In (k, CTime) registered_names -> jlookup k m = Some (JNum mant e) ->
+  in_calendar (float_floor mant e) = true ->
+  exists l, In (mkparam k l CTime) jwt_params /\
+            In (l, fmt_datetime (civil_of_unix (float_floor mant e) 0)) (attrs_of m).
+Proof.
+  intros k m mant e R L C. destruct (registered_row jwt_params params_ok_now k CTime R) as [l Hl].
+  exists l. split; [exact Hl|].
+  apply (shown_listed jwt_params m (mkparam k l CTime) (JNum mant e) _ Hl L). apply sh_num. exact C.
+Qed.
+
+Lemma date_string_listed : forall k m s,
+  In (k, CTime) registered_names -> jlookup k m = Some (JStr s) ->
+  exists l, In (mkparam k l CTime) jwt_params /\
+    ((exists i, parse_int64 s = Some i /\ in_calendar i = true /\
+                In (l, fmt_datetime (civil_of_unix i 0)) (attrs_of m))
+     \/ In (l, s) (attrs_of m)).
+Proof.
+  intros k m s R L. destruct (registered_row jwt_params params_ok_now k CTime R) as [l Hl].
+  exists l. split; [exact Hl|].
+  destruct (parse_int64 s) as [i|] eqn:P; [destruct (in_calendar i) eqn:C|].
+  - left. exists i. repeat split; auto.
+    apply (shown_listed jwt_params m (mkparam k l CTime) (JStr s) _ Hl L). eapply sh_digits; eauto.
+  - right. apply (shown_listed jwt_params m (mkparam k l CTime) (JStr s) _ Hl L). eapply sh_text_far; eauto.
+  - right. apply (shown_listed jwt_params m (mkparam k l CTime) (JStr s) _ Hl L). apply sh_text. exact P.
+Qed.
+
+Definition not_text_or_number (v : jvalue) : Prop :=
+  match v with JStr _ | JNum _ _ => False | _ => True end.
+
+Lemma not_shown_cases : forall p m,
+  In p jwt_params ->
+  (jlookup (p_key p) m = None \/
+   (exists v, jlookup (p_key p) m = Some v /\ not_text_or_number v) \/
+   (exists mant e, jlookup (p_key p) m = Some (JNum mant e) /\
+                   (p_conv p <> CTime \/ in_calendar (float_floor mant e) = false))) ->
+  ~ In (p_label p) (map fst (attrs_of m)).
+Proof.
+  intros p m Hin H. destruct (ok_parts jwt_params params_ok_now) as (_ & N & _).
+  destruct H as [H | [(v & L & Hv) | (mant & e & L & Hc)]].
+  - apply absent_not_listed; auto.
+  - eapply hidden_not_listed; eauto. destruct v; cbn in *; auto; contradiction.
+  - eapply hidden_not_listed; eauto.
+Qed.
+
+Lemma order_fixed : forall m,
+  subseq (map fst (attrs_of m)) (map p_label jwt_params) /\ NoDup (map fst (attrs_of m)).
+Proof.
+  intros m. split; [apply listing_order|].
+  apply listing_labels_nodup. destruct (ok_parts jwt_params params_ok_now) as (_ & N & _). exact N.
+Qed.
+
+Lemma fields_spec : forall hdr pl sig lh lp,
+  listing jwt_params hdr lh -> listing jwt_params pl lp ->
+  describe_jwt (mkjwt hdr pl sig) =
+  Info jwt_desc (lh ++ lp ++ [(sig_label, encode RawURL sig)]) [].
+Proof.
+  intros hdr pl sig lh lp Hh Hp. apply listing_iff in Hh, Hp. subst. reflexivity.
+Qed.
+
+(* the Signature label cannot be confused with a registered field's label *)
+Lemma signature_label_distinct : forall m, ~ In sig_label (map fst (attrs_of m)).
+Proof.
+  intros m H. destruct (ok_parts jwt_params params_ok_now) as (_ & _ & S & _).
+  apply S. eapply subseq_in; [apply listing_order | exact H].
+Qed.
